@@ -62,13 +62,15 @@ def baseline():
             res[e["Package"]+"::"+e["Test"]] = e["Action"]
     return sorted(t for t in stable if res.get(t) != "pass")
 
+# round 2 (and later) seeds: tools/seeds_round2.json, entries [property, variant-dir, demo, dest, cmd, srcdir, id]
+T = [t + (f"/tmp/seed-{t[0]}-out", t[0] + t[1]) for t in T]
+if os.path.exists("/verif/tools/seeds_round2.json"):
+    T += [tuple(e) for e in json.load(open("/verif/tools/seeds_round2.json"))]
 only = set(sys.argv[1:])
 subprocess.run("git -C /repo worktree remove --force %s 2>/dev/null; git -C /repo worktree add --detach %s HEAD -q" % (WT, WT), shell=True)
 out = open("/tmp/confirm-results.jsonl", "a")
-for pid, v, demo, dest, cmd in T:
-    key = pid + v
+for pid, v, demo, dest, cmd, src, key in T:
     if only and key not in only: continue
-    src = f"/tmp/seed-{pid}-out"
     r = {"id": key, "property": pid}
     sh("git checkout -q -- . && git clean -fdq")
     rc, o = sh(f"git apply {src}/{v}/patch.diff")
